@@ -434,8 +434,11 @@ pub fn unescape(line: &str) -> Option<String> {
 }
 
 fn free_port() -> u16 {
-    std::net::TcpListener::bind("127.0.0.1:0").ok().and_then(|l| l.local_addr().ok()).map(|a| a.port()).unwrap_or(23456)
+    crate::engine::realbin::free_port()
 }
+
+/// failures of the test rig itself (port taken by another process, cannot connect): never a verdict
+const INFRA: &str = "INFRASTRUCTURE: ";
 
 /// guest that emits `texts` through the MES write call (stored in DRAM by the harness) and exits
 fn writer_guest(texts: &[Vec<u8>]) -> (Vec<u8>, Vec<(u32, Vec<u8>)>, u32) {
@@ -504,7 +507,7 @@ fn run_writer(texts: &[Vec<u8>], tcp: bool, incoming: &[u8]) -> Result<(Vec<Stri
     let addr2 = addr.clone();
     let h = std::thread::spawn(move || -> Result<(), String> {
         let mut cpu = Cpu::new();
-        cpu.connect_socket(&addr2).map_err(|e| format!("connect_socket: {}", e))?;
+        cpu.connect_socket(&addr2).map_err(|e| format!("{}connect_socket({}): {}", INFRA, addr2, e))?;
         setup(&mut cpu);
         let c = &mut cpu;
         let r = match guarded(move || c.run()) {
@@ -520,8 +523,11 @@ fn run_writer(texts: &[Vec<u8>], tcp: bool, incoming: &[u8]) -> Result<(Vec<Stri
     let mut stream = loop {
         match std::net::TcpStream::connect(&addr) {
             Ok(s) => break s,
-            Err(_) if start.elapsed() < Duration::from_secs(10) => std::thread::sleep(Duration::from_millis(2)),
-            Err(e) => return Err(format!("cannot connect to the emulator's control socket: {}", e)),
+            Err(_) if start.elapsed() < Duration::from_secs(10) && !h.is_finished() => std::thread::sleep(Duration::from_millis(2)),
+            Err(e) => {
+                let why = h.join().ok().and_then(|r| r.err()).unwrap_or_default();
+                return Err(format!("{}cannot connect to the emulator's control socket: {} {}", INFRA, e, why));
+            }
         }
     };
     if !incoming.is_empty() {
@@ -534,7 +540,8 @@ fn run_writer(texts: &[Vec<u8>], tcp: bool, incoming: &[u8]) -> Result<(Vec<Stri
         match stream.read(&mut buf) {
             Ok(0) => break,
             Ok(n) => wire.extend_from_slice(&buf[..n]),
-            Err(e) => return Err(format!("reading from the control socket: {}", e)),
+            // 30 s without a byte and without a close: the rig is stuck (or the emulator hangs): not a verdict
+            Err(e) => return Err(format!("{}reading from the control socket: {}", INFRA, e)),
         }
     }
     h.join().map_err(|_| "thread".to_string())??;
@@ -584,7 +591,7 @@ fn judge_tcp_lines(lines: &[String], chunk_seed: u32) -> Result<(), String> {
     let addr2 = addr.clone();
     let h = std::thread::spawn(move || -> Result<FinalState, String> {
         let mut cpu = Cpu::new();
-        cpu.connect_socket(&addr2).map_err(|e| format!("connect_socket: {}", e))?;
+        cpu.connect_socket(&addr2).map_err(|e| format!("{}connect_socket({}): {}", INFRA, addr2, e))?;
         for (i, b) in echo_guest().iter().enumerate() {
             cpu.bus.memory[(CODE - 0xffbf20) as usize + i] = *b;
         }
@@ -613,8 +620,11 @@ fn judge_tcp_lines(lines: &[String], chunk_seed: u32) -> Result<(), String> {
     let mut stream = loop {
         match std::net::TcpStream::connect(&addr) {
             Ok(s) => break s,
-            Err(_) if start.elapsed() < Duration::from_secs(10) => std::thread::sleep(Duration::from_millis(2)),
-            Err(e) => return Err(format!("cannot connect: {}", e)),
+            Err(_) if start.elapsed() < Duration::from_secs(10) && !h.is_finished() => std::thread::sleep(Duration::from_millis(2)),
+            Err(e) => {
+                let why = h.join().ok().and_then(|r| r.err()).unwrap_or_default();
+                return Err(format!("{}cannot connect: {} {}", INFRA, e, why));
+            }
         }
     };
     let mut bytes: Vec<u8> = vec![];
@@ -799,6 +809,10 @@ pub fn run(ctx: &Ctx) -> i32 {
                 println!("replay {}: passes", P);
                 0
             }
+            Err(m) if m.starts_with(INFRA) => {
+                eprintln!("inconclusive: {}", m);
+                2
+            }
             Err(m) => {
                 let f = Failure { signature: "control lines".into(), detail: m, case: case.clone() };
                 let p = write_replay(P, &f);
@@ -917,6 +931,7 @@ pub fn run(ctx: &Ctx) -> i32 {
                             st.nontrivial(key_hash(&texts), || json!({"texts": texts.iter().map(|t| String::from_utf8_lossy(t).chars().take(40).collect::<String>()).collect::<Vec<_>>()}));
                         }
                     }
+                    Err(m) if m.starts_with(INFRA) => st.notes.push(format!("TCP run inconclusive: {}", m)),
                     Err(m) => {
                         st.fail(Failure { signature: format!("outgoing framing | {}", fail_field(&m.replace(|c: char| c.is_ascii_digit(), ""))), detail: m, case: json!({"kind": "framing", "texts": texts.iter().map(|t| crate::engine::stepcase::hex(t)).collect::<Vec<_>>()}) });
                         break;
@@ -930,6 +945,7 @@ pub fn run(ctx: &Ctx) -> i32 {
                         st.evaluations += 1;
                         st.class("TCP: incoming lines in odd chunks through the receive worker");
                     }
+                    Err(m) if m.starts_with(INFRA) => st.notes.push(format!("TCP run inconclusive: {}", m)),
                     Err(m) => {
                         st.fail(Failure { signature: format!("control lines over TCP | {}", fail_field(&m.replace(|c: char| c.is_ascii_digit(), ""))), detail: m, case: lines_json(&lines, "tcp") });
                         break;
@@ -944,6 +960,11 @@ pub fn run(ctx: &Ctx) -> i32 {
     // instruction must arrive as one line, in order, before the connection closes
     stats.merge(real_phase(ctx, tier.pick(48, 1200)));
     drop(quiet);
+    let inconclusive = stats.notes.iter().filter(|n| n.contains("inconclusive")).count();
+    if inconclusive >= 8 {
+        eprintln!("C18: {} TCP / real-binary runs were inconclusive (first: {}): the rig is not working, no verdict", inconclusive, stats.notes.iter().find(|n| n.contains("inconclusive")).cloned().unwrap_or_default());
+        return 2;
+    }
     if tier == Tier::Thorough {
         fuzz_campaign(ctx, "fuzz_lines", 8, 40_000, 1024, &mut stats);
     }
